@@ -3,6 +3,7 @@ import PGM.Driver.C15
 import PGM.Driver.C12
 import PGM.Driver.C01
 import PGM.Driver.C04
+import PGM.Driver.C09
 /-!
 Line-protocol driver: one JSON request per input line, one JSON response per output line.
 Run with `lake env lean --run Main.lean` or as the compiled `pgmdriver`.
@@ -22,6 +23,7 @@ def dispatch (req : Json) : Except String Json := do
   | "krondot" => handleKrondot req
   | "many" => handleMany req
   | "loss" => handleLoss req
+  | "total" => handleTotal req
   | _ => throw s!"unknown op {op}"
 
 def respond (line : String) : String :=
